@@ -598,14 +598,19 @@ def capi_scripts(q):
             {"fn": "haystack_value_make_dict", "newh": 2},
             {"fn": "haystack_value_insert_dict_entry", "h": 2, "s": _S("a"), "h2": 1},
             {"fn": "haystack_value_insert_dict_entry", "h": 2, "s": _S("dis"), "h2": 1},
+            {"fn": "haystack_value_make_dict", "newh": 8},
+            {"fn": "haystack_value_insert_dict_entry", "h": 8, "s": _S("b"), "h2": 1},
             {"fn": "haystack_value_make_list", "newh": 3},
             {"fn": "haystack_value_push_list_entry", "h": 3, "h2": 2},
-            {"fn": "haystack_value_push_list_entry", "h": 3, "h2": 2},
+            {"fn": "haystack_value_push_list_entry", "h": 3, "h2": 8},
             {"fn": "haystack_value_make_grid_from_rows", "h": 3, "newh": 4},
             {"fn": "haystack_value_make_date", "n1": 2021, "n2": 8, "n3": 13, "newh": 5},
             {"fn": "haystack_value_make_time", "n1": 2, "n2": 30, "n3": 0, "newh": 6},
             {"fn": "haystack_value_make_tz_datetime", "h": 5, "h2": 6, "s": _S("New_York"), "newh": 7},
-            {"fn": "haystack_filter_parse", "s": _S("a"), "newf": 1}]
+            {"fn": "haystack_filter_parse", "s": _S("a"), "newf": 1},        # first row only
+            {"fn": "haystack_filter_parse", "s": _S("b"), "newf": 2},        # second row only
+            {"fn": "haystack_filter_parse", "s": _S("zz"), "newf": 3},       # no row
+            {"fn": "haystack_filter_parse", "s": _S("a or b"), "newf": 4}]   # every row
     holders = {"empty": [{"fn": "haystack_value_init", "newh": 9}],
                "str": [{"fn": "haystack_value_make_str", "s": _S(P + "-held"), "newh": 9}],
                "list": [{"fn": "haystack_value_make_list", "newh": 9}, {"fn": "haystack_value_push_list_entry", "h": 9, "h2": 1}],
@@ -614,8 +619,10 @@ def capi_scripts(q):
     writers = [[{"fn": "haystack_value_get_grid_row_at", "h": 4, "idx": 0, "h2": 9}, {"fn": "haystack_value_get_grid_row_at", "h": 4, "idx": 1, "h2": 9}],
                [{"fn": "haystack_value_get_dict_keys", "h": 2, "h2": 9}] * 2,
                [{"fn": "haystack_value_get_datetime_date", "h": 7, "b": True, "h2": 9}, {"fn": "haystack_value_get_datetime_time", "h": 7, "b": False, "h2": 9}],
-               [{"fn": "haystack_filter_first_match_in_grid", "fid": 1, "h": 4, "h2": 9}] * 2,
-               [{"fn": "haystack_filter_match_all_grid", "fid": 1, "h": 4, "h2": 9}] * 2]
+               # a match, no match, another match, every row - into the same result handle (a stale result must not survive)
+               [{"fn": "haystack_filter_first_match_in_grid", "fid": f, "h": 4, "h2": 9} for f in (1, 3, 2, 4, 3)],
+               [{"fn": "haystack_filter_match_all_grid", "fid": f, "h": 4, "h2": 9} for f in (1, 3, 2, 4, 3)],
+               [{"fn": "haystack_filter_match_dict", "fid": f, "h": d} for f in (1, 2, 3, 4) for d in (2, 8)]]
     for hk, mk in holders.items():
         for w in writers:
             for reps in (1, 4):
